@@ -183,9 +183,14 @@ CONFIG = {
         "file.Store: path/filepath is not modelled, the resolved (cleaned) path of a name is an input of the model; names with path traversal, the unpack annotation and manifest media types are not generated; names that alias one path ARE generated and modelled: there the property fails (known finding file-alias-clobbers-visible, theorem C05_push_file_partial assumes path_free, C05_push_file_alias_refuted is the witness)",
         "concurrent pushes: the micro-step transition system of Model/Verify.v (cstep) is tied to the code by outcome membership: for races of 2-3 goroutines on one OCI layout the observed per-goroutine results + final blobs/ listing + ingest/ count must be one of the terminal outcomes of the exhaustive interleaving of the model (explore, proved to produce runs of the system only; Writes are explored unsplit because they touch only the thread's own ingest file -- this reduction is argued, not proved); individual file-system micro-steps are not observed (no syscall tracing); larger races and memory/limited stores are covered by the concurrent oracle only",
         "cas.Proxy is modelled for a cas.Memory cache (NewProxy / NewProxyWithLimit), a caller that issues any sequence of Read sizes and then Close, StopCaching on/off; the io.Pipe is synchronous, which makes the session deterministic (a Write returns the prefix the push consumed + the push error, the drain loop after a successful push consumes the rest); a caller that never calls Close, Proxy over other cache implementations and Proxy.Exists are not modelled",
+        "destination errors are outside the property's quantifier (inputs = bytes, descriptors, reader behaviours, schedules) and outside the model (the destination never fails); ioutil.CopyBuffer is driven against a failing / short-writing io.Writer in the oracle only (never nil once bytes were lost); disk faults (ENOSPC, a failing Close) of oci.Storage / file.Store are not injected -- note: file.Store.saveFile records digestToPath before the deferred Close, which a Close error would leave behind (not observable by this check)",
+        "store options and public wrappers: the model covers file.New defaults, oci.NewStorage, cas.Memory, LimitedStorage; oci.Store (oci.New), memory.Store, file.Store with DisableOverwrite / ForceCAS / IgnoreNoName / NewWithFallbackStorage are run by the oracle only (stream SX, incl. races on file and oci.Store); Store.IgnoreNoName discards unnamed pushes by documented option (Push may return nil for any content): there only 'nothing became visible' is judged; AllowPathTraversalOnWrite, SkipUnpack / the unpack annotation (pushDir) and manifest media types (restoreDuplicates, graph indexing) are not generated",
+        "reader scripts: EOF is sticky (a reader that delivers data or an error after io.EOF is not expressible); several injected errors per script, 0-byte reads and data+EOF / data+error in one call are",
+        "concurrency: theorems for oci.Storage (C05_concurrent_same_digest, tied by outcome membership) and cas.Memory / LimitedStorage (C05_concurrent_memory, transition system not tied by correspondence); file.Store and oci.Store races (one digest under two names, one name twice, descriptors of one digest with different Size) are oracle only; 'at every instant' is observed by a polling goroutine (Fetch and a walk of blobs/), i.e. by sampling",
+        "the in-Coq vm_compute re-evaluation of correspondence cases runs in the thorough tier only; go-digest's grammar / algorithm table is hand-modelled (not regenerated by the translator)",
     ],
     "level_text": "Coq theorems for every reader behaviour (arbitrary chunking, 0-byte reads, error at any offset, data with EOF), every descriptor and every digest function: ReadAll / any use of VerifyReader / CopyBuffer (any buffer size) succeed only with exactly the descriptor's bytes and an exhausted reader; malformed or unsupported digest, negative size, short reader, wrong first-Size bytes and trailing bytes are always errors; Push on memory, limited, OCI and file stores stores exactly those bytes or leaves Exists/Fetch/blobs unchanged; after any push history everything visible matches; any interleaving of concurrent OCI pushes keeps every blob verified; pre-fix negative-size acceptance kept as a refuted witness. Model tied to the code by differential runs (scripted readers x descriptors x push histories on the real stores, listing blobs/ and ingest/) and an independent SHA-2 oracle incl. goroutine races and the caching proxy",
-    "level_note": "digest function abstract (no SHA-2 model); Go io helpers and go-digest validation hand-modelled (tied by correspondence, AST hashes of the mirrored functions recorded); write errors of the destination and path traversal/unpack in file.Store are not modelled; cas.Proxy is modelled for memory caches and closing callers; the concurrent transition system is tied by outcome-set membership of small races (not by per-syscall traces)",
+    "level_note": "digest function abstract (no SHA-2 model); Go io helpers and go-digest validation hand-modelled (tied by correspondence, AST hashes of the mirrored functions recorded); write errors of the destination and path traversal/unpack in file.Store are not modelled; cas.Proxy is modelled for memory caches and closing callers; file.Store name aliasing violates the property (known finding file-alias-clobbers-visible, theorem only _partial); options/wrappers, destination faults, file-store races and sizes > 2^30 are oracle-only; the concurrent transition system is tied by outcome-set membership of small races (not by per-syscall traces)",
     "technique": "machine-checked proof in Coq (invariants of the VerifyReader state machine over all reader scripts, store invariants over all push histories, transition-system invariant over all interleavings) + translator-regenerated constants/AST anchors + model/implementation correspondence",
     "explanation": "theorems about an executable model of content/reader.go, internal/ioutil/io.go, cas.Memory, LimitedStorage, oci.Storage.Push and file.Store.push whose reader is an arbitrary script; the extracted model and the real code are run on the same generated scripts/descriptors/push histories and their results, Exists/FetchAll observations and directory listings are diffed; an independent oracle recomputes SHA-2 and checks the property statement directly (also under goroutine races and through the caching proxy)",
 }
